@@ -1,0 +1,41 @@
+//go:build verif
+
+package sse
+
+// VerifShape is a read-only picture of a replayer's ring buffer, used by the
+// verification harness to compare the implementation's internal shape with the
+// specification's. It is only compiled with the verif build tag.
+type VerifShape struct {
+	IDs                    []string // ID of the message in each slot ("" for an empty slot)
+	Occupied               []bool   // whether the slot holds a message
+	Head, Tail, Count, Cap int
+}
+
+// VerifReplayerShape returns the shape of a FiniteReplayer or ValidReplayer.
+func VerifReplayerShape(r Replayer) (VerifShape, bool) {
+	switch v := r.(type) {
+	case *FiniteReplayer:
+		s := VerifShape{Head: v.buf.head, Tail: v.buf.tail, Count: v.buf.count, Cap: len(v.buf.buf)}
+		for _, e := range v.buf.buf {
+			s.Occupied = append(s.Occupied, e.message != nil)
+			if e.message != nil {
+				s.IDs = append(s.IDs, e.message.ID.String())
+			} else {
+				s.IDs = append(s.IDs, "")
+			}
+		}
+		return s, true
+	case *ValidReplayer:
+		s := VerifShape{Head: v.messages.head, Tail: v.messages.tail, Count: v.messages.count, Cap: len(v.messages.buf)}
+		for _, e := range v.messages.buf {
+			s.Occupied = append(s.Occupied, e.message != nil)
+			if e.message != nil {
+				s.IDs = append(s.IDs, e.message.ID.String())
+			} else {
+				s.IDs = append(s.IDs, "")
+			}
+		}
+		return s, true
+	}
+	return VerifShape{}, false
+}
